@@ -514,4 +514,188 @@ theorem vn_never_has_payload_fields (n : Nat) (b : List Nat) (p : Packet) (rest 
     | handshake off len next hne => exact absurd hV hne
     | retry hne => exact absurd hV hne
 
+/-- **never a panic**: none of the `expect(..)` / `debug_assert!` sites of the decoder
+    (`HeaderDecoder::new_long` / `new_short`, the `skip` in `ProtectedVersionNegotiation::decode`,
+    `ProtectedPayload::new`, the Retry tag `try_into().expect(..)`) can fire — the decoder returns a
+    packet or one of the nine `DecoderError` classes on every byte string -/
+theorem header_decode_total (n : Nat) (b : List Nat) (hb : BytesOk b) : decodePacket n b ≠ .error .panic := by
+  intro h
+  match b, hb, h with
+  | [], _, h => simp [decodePacket] at h
+  | first :: t, hb, h =>
+    have hf : first < 256 := hb first (List.mem_cons_self ..)
+    by_cases hform : first / 128 % 2 = 0
+    · rw [decodePacket_shortForm n first t hf hform, decodeShort_spec] at h
+      repeat' (split at h)
+      all_goals simp at h
+    · have hform1 : first / 128 % 2 = 1 := by omega
+      by_cases ht : t.length < 4
+      · rw [decodePacket_longTrunc n first t hf hform1 ht] at h; simp at h
+      · match t, ht, hb, h with
+        | [], ht, _, _ => exact absurd (by simp) ht
+        | [_], ht, _, _ => exact absurd (by simp) ht
+        | [_, _], ht, _, _ => exact absurd (by simp) ht
+        | [_, _, _], ht, _, _ => exact absurd (by simp) ht
+        | v0 :: v1 :: v2 :: v3 :: r1, _, hb, h =>
+          rw [decodePacket_long n first v0 v1 v2 v3 r1 hf hform1] at h
+          unfold decodeZeroRtt decodeHandshake at h
+          rw [decodeVn_eq first first v0 v1 v2 v3 r1 rfl, decodeInitial_eq _ first v0 v1 v2 v3 r1 hb rfl,
+            decodeLongPlain_eq _ first v0 v1 v2 v3 r1 hb rfl, decodeLongPlain_eq _ first v0 v1 v2 v3 r1 hb rfl,
+            decodeRetry_eq first _ first v0 v1 v2 v3 r1 rfl] at h
+          repeat' (split at h)
+          all_goals simp at h
+
+/-- **other versions.**  The code decodes every non-zero version with the version-1 layout; the RFC
+    knows only the RFC 8999 fields of such a packet.  Whenever the code ACCEPTS a packet of a version
+    other than 0 and 1, the version and both connection IDs it reports are the RFC 8999 ones (so a
+    Version Negotiation packet built from them echoes the right IDs); the code is free to drop such
+    packets, and does so for 0-RTT / Handshake / Retry typed ones with IDs longer than 20 bytes. -/
+theorem unknown_version_fields (n : Nat) (b : List Nat) (p : Packet) (rest : List Nat) (hb : BytesOk b)
+    (v : Nat) (hv : versionField b = some v) (h0 : v ≠ 0) (h1 : v ≠ 1)
+    (h : decodePacket n b = .ok (p, rest)) :
+    abs (decodePacket n b) = parsePacket n b ∧ p.version? = some v ∧
+      ∃ s, p.scid? = some s ∧ parsePacket n b = some (.unsupportedVersion v p.dcid s, []) := by
+  rcases decodePacket_ok_inv n b p rest hb h with
+    ⟨first, t, hbdef, hform, _, _, _, _, _⟩ | ⟨first, v0, v1, v2, v3, r1, d, r2, s, r3, hbdef, hform, _, hc1, hc2, hok⟩
+  · exfalso
+    rw [hbdef] at hv
+    match t, hv with
+    | [], hv => simp [versionField] at hv
+    | [_], hv => simp [versionField] at hv
+    | [_, _], hv => simp [versionField] at hv
+    | [_, _, _], hv => simp [versionField] at hv
+    | _ :: _ :: _ :: _ :: _, hv =>
+      simp only [versionField] at hv
+      rw [if_neg (by omega)] at hv
+      simp at hv
+  · have hV : ((v0 * 256 + v1) * 256 + v2) * 256 + v3 = v := by
+      rw [hbdef] at hv
+      simp only [versionField] at hv
+      rw [if_pos hform] at hv
+      simpa using hv
+    have hparse : parsePacket n b = some (.unsupportedVersion v d s, []) := by
+      rw [hbdef, parsePacket_long n first v0 v1 v2 v3 r1 hform, hc1]
+      simp only [hc2, hV]
+      rw [if_neg h0, if_neg h1]
+    rw [hV] at hok
+    rw [h, hparse]
+    cases hok with
+    | vn hz => exact absurd hz h0
+    | initial tl r4 tok r5 off len next =>
+      refine ⟨?_, rfl, s, rfl, rfl⟩
+      simp only [abs, Packet.version?, toRfc, if_neg h1]
+    | zeroRtt off len next =>
+      refine ⟨?_, rfl, s, rfl, rfl⟩
+      simp only [abs, Packet.version?, toRfc, if_neg h1]
+    | handshake off len next =>
+      refine ⟨?_, rfl, s, rfl, rfl⟩
+      simp only [abs, Packet.version?, toRfc, if_neg h1]
+    | retry =>
+      refine ⟨?_, rfl, s, rfl, rfl⟩
+      simp only [abs, Packet.version?, toRfc, if_neg h1]
+
+/-- RFC 9000 §17.2.1: "Version-specific rules for the connection ID MUST NOT influence a decision about
+    whether to send a Version Negotiation packet": a packet with the Initial type bits (the only kind the
+    server answers with Version Negotiation) is never rejected because of a connection-ID length -/
+theorem initial_typed_never_rejected_for_cid_len (n first v0 v1 v2 v3 : Nat) (r1 : List Nat)
+    (hb : BytesOk (first :: v0 :: v1 :: v2 :: v3 :: r1)) (hty : first / 16 = 12)
+    (hV : ((v0 * 256 + v1) * 256 + v2) * 256 + v3 ≠ 0) :
+    decodePacket n (first :: v0 :: v1 :: v2 :: v3 :: r1) ≠ .error .dcidLen ∧
+    decodePacket n (first :: v0 :: v1 :: v2 :: v3 :: r1) ≠ .error .scidLen := by
+  have hf : first < 256 := hb first (List.mem_cons_self ..)
+  have hform : first / 128 % 2 = 1 := by omega
+  rw [decodePacket_long n first v0 v1 v2 v3 r1 hf hform, if_neg hV, if_neg (by omega), if_pos hty]
+  constructor <;> (intro h; have := decodeInitial_error_eof hb rfl h; simp at this)
+
+/-- **decoder followed by the endpoint's connection-ID check = the RFC parser** on version-1 and
+    short-header input: the only deviation left on such input (`CidDeviation` for Initial packets) is
+    closed by `endpointCidCheck`, which s2n-quic applies to every decoded packet before routing it -/
+theorem impl_eq_rfc_header_with_endpoint_check (n : Nat) (b : List Nat) (hb : BytesOk b)
+    (hv : ∀ v, versionField b = some v → v = 1) :
+    abs (endpointCidCheck (decodePacket n b)) = parsePacket n b := by
+  have hkv : KnownVersion b := fun v h => Or.inr (hv v h)
+  by_cases hq : CidDeviation b
+  · -- an over-long connection ID in an Initial-typed version-1 packet: both sides reject
+    obtain ⟨first, V, d, s, body, hinv, hlong, hver⟩ := hq
+    obtain ⟨v0, v1, v2, v3, r1, r2, hbdef, hform, hVeq, hc1, hc2⟩ := invariants_some_inv hinv
+    have hV1 : ((v0 * 256 + v1) * 256 + v2) * 256 + v3 = 1 := by
+      apply hv
+      rw [hbdef]; simp only [versionField]; rw [if_pos hform]
+    have hty : first / 16 % 4 = 0 := by
+      rcases hver with h | ⟨_, h⟩
+      · omega
+      · exact h
+    have hparse : parsePacket n b = none := by
+      rw [hbdef, parsePacket_long n first v0 v1 v2 v3 r1 hform, hc1]
+      simp only [hc2, hV1]
+      simp only [show ¬ ((1 : Nat) = 0) from by omega, if_false, if_true, parseV1]
+      have hcid : ¬ (d.length ≤ Rfc.PacketHeader.v1MaxCid ∧ s.length ≤ Rfc.PacketHeader.v1MaxCid) := by
+        unfold Rfc.PacketHeader.v1MaxCid; omega
+      split <;> first | rfl | rw [if_neg hcid]
+    rw [hparse]
+    cases hd : decodePacket n b with
+    | error e => rfl
+    | ok x =>
+      obtain ⟨p, rest⟩ := x
+      rcases decodePacket_ok_inv n b p rest hb hd with
+        ⟨f', t, hb', hform', _, _, _, _, _⟩ | ⟨f', w0, w1, w2, w3, q1, d', q2, s', q3, hb', _, _, hc1', hc2', hok⟩
+      · rw [hbdef] at hb'
+        simp only [List.cons.injEq] at hb'
+        omega
+      · rw [hbdef] at hb'
+        simp only [List.cons.injEq] at hb'
+        obtain ⟨e0, e1, e2, e3, e4, e5⟩ := hb'
+        subst e0; subst e1; subst e2; subst e3; subst e4; subst e5
+        rw [hc1] at hc1'
+        simp only [Option.some.injEq, Prod.mk.injEq] at hc1'
+        obtain ⟨ed, er⟩ := hc1'
+        subst ed; subst er
+        rw [hc2] at hc2'
+        simp only [Option.some.injEq, Prod.mk.injEq] at hc2'
+        obtain ⟨es, eb⟩ := hc2'
+        subst es; subst eb
+        have hchk : endpointCidCheck (.ok (p, rest)) = .error .dcidLen ∨ endpointCidCheck (.ok (p, rest)) = .error .scidLen := by
+          have hds : p.dcid = d ∧ p.scid? = some s := by
+            cases hok <;> exact ⟨rfl, rfl⟩
+          unfold endpointCidCheck
+          simp only [hds.1, hds.2]
+          by_cases hd20 : d.length > maxDcidLen
+          · left; rw [if_pos hd20]
+          · right
+            rw [if_neg hd20, if_pos (by unfold maxDcidLen at hd20; unfold maxScidLen; omega)]
+        rcases hchk with e | e <;> rw [e] <;> rfl
+  · rw [← impl_eq_rfc_header_partial n b hb hkv hq]
+    cases hd : decodePacket n b with
+    | error e => rfl
+    | ok x =>
+      obtain ⟨p, rest⟩ := x
+      have hsame : endpointCidCheck (.ok (p, rest)) = .ok (p, rest) := by
+        rcases decodePacket_ok_inv n b p rest hb hd with
+          ⟨f', t, hb', _, _, hn, hn20, hp, _⟩ | ⟨f', w0, w1, w2, w3, q1, d, q2, s, q3, hb', hform, _, hc1, hc2, hok⟩
+        · unfold endpointCidCheck
+          rw [hp]
+          simp only [Packet.dcid, Packet.scid?, List.length_take]
+          rw [if_neg (by unfold maxDcidLen; omega)]
+        · have hV1 : ((w0 * 256 + w1) * 256 + w2) * 256 + w3 = 1 := by
+            apply hv
+            rw [hb']; simp only [versionField]; rw [if_pos hform]
+          have hbound : d.length ≤ 20 ∧ s.length ≤ 20 := by
+            cases hok with
+            | vn hz => omega
+            | zeroRtt _ _ _ _ _ hdl hsl => exact ⟨hdl, hsl⟩
+            | handshake _ _ _ _ _ hdl hsl => exact ⟨hdl, hsl⟩
+            | retry _ _ hdl hsl => exact ⟨hdl, hsl⟩
+            | initial tl r4 tok r5 off len next _ h12 =>
+              have hinv : invariants b = some (f', 1, d, s, q3) := by
+                rw [hb', invariants_cons5 _ _ _ _ _ _ hform, hc1]
+                simp only [hc2, hV1]
+              refine ⟨Nat.le_of_not_lt fun hlt => hq ⟨f', 1, d, s, q3, hinv, Or.inl hlt, Or.inr ⟨rfl, by omega⟩⟩,
+                Nat.le_of_not_lt fun hlt => hq ⟨f', 1, d, s, q3, hinv, Or.inr hlt, Or.inr ⟨rfl, by omega⟩⟩⟩
+          have hds : p.dcid = d ∧ p.scid? = some s := by
+            cases hok <;> exact ⟨rfl, rfl⟩
+          unfold endpointCidCheck
+          simp only [hds.1, hds.2]
+          rw [if_neg (by unfold maxDcidLen; omega), if_neg (by unfold maxScidLen; omega)]
+      rw [hsame]
+
 end Quic.Proofs.C05
